@@ -59,7 +59,7 @@ class MultiTrackLargeVocabularyNotelikeTokeniser:
             self.note_values = get_default_note_values()
         self.note_values.sort()
 
-        self.velocity_bins = [int(velocity_bin) for velocity_bin in get_velocity_bins(velocity_bins=velocity_bins)]
+        self.velocity_bins = sorted({int(velocity_bin) for velocity_bin in get_velocity_bins(velocity_bins=velocity_bins)})
 
         # Memory
         self.cur_time = None
